@@ -4,7 +4,7 @@ import core, lib
 from core import call_matches, call_names, op_place, op_local, backward_slice
 
 LEVEL = 'proof'
-FLOOR = 30
+FLOOR = 39      # 70% of the 56 obligation instances derived on the tree the rules were last reviewed against
 EXPLANATION = ('In DbInner::open the stored metadata is loaded and compared before the log directory scan (which may unlink empty logs) and before any '
                'column file is opened/extended; metadata is written only with create=true and only when absent; the metadata writer and reader agree on '
                'every key (one per ColumnOptions field, same field on both sides) and equality compares every field; the three per-column file-name '
